@@ -516,6 +516,7 @@ func checkC18(w *World, r *Report) {
 		}
 	}
 
+	r.Rule("R18.8", "no parsing function returns a nil object together with a possibly-nil error (a malformed definition must be a configuration error, not a nil entry)", 3)
 	r.Rule("R18.7", "an upstream address counts as an encrypted transport only over a TLS-built carrier or under a test for a TLS scheme (+tls, https, wss): never for a scheme that merely looks like one", 5)
 	if sites, _ := findConnectSites(w); len(sites) > 0 {
 		c04CorrelationClient(w, r, "R18.7", sites)
@@ -878,6 +879,7 @@ func c18NilDeref(w *World, r *Report) {
 			}
 		}
 	}
+	ruleNoNilResultWithNilError(w, r, "R18.8", roots)
 	seen := map[*ssa.Function]bool{}
 	var cone []*ssa.Function
 	var walk func(f *ssa.Function, d int)
